@@ -125,6 +125,32 @@ func c27Exec(p *harness.Plan) *harness.Outcome {
 					}
 				}
 			}
+			// a second removal of an already removed node, stamped shortly BEFORE the first one (the model goes
+			// by what is recorded, whatever the stamp: the node is not currently accepted)
+			var backTs uint64
+			if op.Kind == "remove" && op.A >= 60 && op.A < 72 {
+				var gone []*c27Node
+				for _, n := range latest {
+					if n.state == common.NodeStateRemoved {
+						gone = append(gone, n)
+					}
+				}
+				sort.Slice(gone, func(a, b int) bool { return gone[a].signer.String() < gone[b].signer.String() })
+				if len(gone) > 0 {
+					n := gone[op.N%len(gone)]
+					var acceptedAt uint64
+					for _, h := range history {
+						if h.signer == n.signer && h.state == common.NodeStateAccepted {
+							acceptedAt = h.ts
+						}
+					}
+					if n.ts > acceptedAt+2*uint64(time.Second) {
+						signer, payee = n.signer, n.payee
+						backTs = n.ts - uint64(time.Second)
+						c.out.Probes["backdated_second_removal"]++
+					}
+				}
+			}
 			if op.A >= 85 { // wrong payee
 				payee = ids[(op.N+1)%len(ids)].payee.PublicSpendKey
 			}
@@ -176,8 +202,12 @@ func c27Exec(p *harness.Plan) *harness.Outcome {
 			}
 			before := f.Dump()
 			var werr error
+			useTs := ts
+			if backTs > 0 {
+				useTs = backTs
+			}
 			if g := c.guard("finalize-panic", func() {
-				_, werr = f.Finalize(op.M%7, ts, []*common.VersionedTransaction{ver}, nil)
+				_, werr = f.Finalize(op.M%7, useTs, []*common.VersionedTransaction{ver}, nil)
 			}); g != nil {
 				return g
 			}
@@ -275,7 +305,7 @@ func init() {
 	harness.Register(&harness.Property{
 		ID:    "C27",
 		Level: "exploration",
-		Rule: "seeded sequences of pledge/accept/cancel/remove attempts (about half model-valid, the rest: second pledger, reused signer key, wrong signer or payee, accept/cancel with nobody pledging, remove of non-accepted) finalized through the real WriteSnapshot with strictly increasing timestamps (seconds, >12h jumps, nanosecond steps) and restarts; " +
+		Rule: "seeded sequences of pledge/accept/cancel/remove attempts (about half model-valid, the rest: second pledger, reused signer key, wrong signer or payee, accept/cancel with nobody pledging, remove of non-accepted) finalized through the real WriteSnapshot with strictly increasing timestamps (seconds, >12h jumps, nanosecond steps) and restarts, plus second removals of an already removed node stamped one second before the recorded removal (the only back-dated operations: they must be refused whatever the stamp); " +
 			"non-trivial = at least one valid transition recorded and one rejected; distinct = canonical-log digests",
 		Components: r3Components,
 		Assume:     append([]string{"membership snapshots are finalized in strictly increasing timestamp order (C28)"}, r3Assume...),
